@@ -35,7 +35,41 @@ def dec(t):
     raise ValueError("bad tagged value")
 
 
+def hist(h):
+    """another public call of the canonicalization package; its outcome is not judged, only that it leaves later
+    canonicalize() answers alone"""
+    import math
+    from stix2.canonicalization import Canonicalize as C
+    from stix2.canonicalization.NumberToJson import convert2Es6Format
+    op = h["op"]
+    try:
+        if op == "serialize":
+            r = C.serialize(dec(h["v"]), utf8=bool(h.get("utf8")))
+        elif op == "canonicalize_utf8":
+            r = C.canonicalize(dec(h["v"]), utf8=True)
+        elif op == "canonicalize_text":
+            r = C.canonicalize(dec(h["v"]), utf8=False)
+        elif op == "canonicalize_raises":
+            bad = {"nan": [1, {"a": math.nan}], "inf": {"x": [math.inf]}, "set": {"a": {1, 2}}, "key": {"\ud800": 1},
+                   "nonstr_key": {(1, 2): 3}}[h["what"]]
+            r = C.canonicalize(bad, utf8=False)
+        elif op == "convert":
+            arg = {"nan": math.nan, "inf": math.inf, "ninf": -math.inf, "big": 10 ** 400, "text": "abc", "numtext": "1e5",
+                   "true": True, "none": None, "negzero": -0.0, "tiny": 5e-324, "int": 12345678901234567890}[h["what"]]
+            r = convert2Es6Format(arg)
+        elif op == "encoder":
+            enc = C.JSONEncoder(sort_keys=bool(h.get("sort_keys")), ensure_ascii=bool(h.get("ensure_ascii")))
+            r = enc.encode(dec(h["v"]))
+        else:
+            return {"hist": "unknown-op"}
+        return {"hist": "ok"}
+    except Exception as e:  # noqa: BLE001
+        return {"hist": "exc:" + type(e).__name__}
+
+
 def call(case):
+    if "hist" in case:
+        return hist(case["hist"])
     v = dec(case["v"])
     try:
         text = canonicalize(v, utf8=False)
